@@ -263,6 +263,10 @@ func c02Run(r *core.Run) {
 			continue
 		}
 		raw := c.q.Bytes()
+		var poolBefore *x509.CertPool
+		if c.pool != nil {
+			poolBefore = c.pool.Clone()
+		}
 		op1, op2 := mkOpts(O0, &failGetter{}, c.pool, w.Times), mkOpts(O0, &failGetter{}, c.pool, w.Times)
 		if strings.HasPrefix(c.name, "now-unset:") {
 			op1.Now, op2.Now = nil, nil
@@ -299,6 +303,10 @@ func c02Run(r *core.Run) {
 			r.Eval()
 			r.Probe("rejected_chain_with_collateral_checking_on_slow_network")
 		}
+		if c.pool != nil && !c.pool.Equal(poolBefore) {
+			// the pool is the caller's statement of whom it trusts; a verifier that adds to it changes that statement
+			r.Violate("C02:callers-pool-modified", "%s: after verification the caller's TrustedRoots pool no longer holds what the caller put there (and only that)", c.name)
+		}
 		for i, oc := range outs {
 			form := forms[i]
 			switch {
@@ -322,6 +330,28 @@ func c02Run(r *core.Run) {
 		r.EndItem()
 	}
 
+	// 4b. whatever pool object the library hands out with its default options is the caller's to extend;
+	// verifications that name no pool keep trusting the embedded Intel root only
+	if r.Item("default-options-pool-extended-by-caller") {
+		d := verify.DefaultOptions()
+		if d.TrustedRoots != nil {
+			d.TrustedRoots.AddCert(B.Root.X)
+			r.Probe("default_options_hand_out_a_pool")
+		}
+		for _, o := range []*verify.Options{mkOpts(O0, &failGetter{}, nil, w.Times), func() *verify.Options {
+			x := verify.DefaultOptions()
+			x.Getter, x.Now, x.GetCollateral, x.CheckRevocations = &failGetter{}, timeSet(w.Times), false, false
+			return x
+		}()} {
+			out := verifyRaw(qB.Bytes(), o)
+			r.Eval()
+			if out.Accepted() {
+				r.Violate("C02:accepted:no-pool-after-a-caller-extended-the-default-options-pool", "a quote under the look-alike root B is accepted by a verification that names no pool (embedded Intel root only), after another caller added B to the pool it got from DefaultOptions()")
+			}
+		}
+		r.State("default-options-pool-extended-by-caller")
+		r.EndItem()
+	}
 	// 5. root-of-trust configurations (bundle files on a simulated disk, inline PEM)
 	c02RootOfTrust(r, w, A, B, C, qA, qB)
 	r.Sample("world %s with look-alike PKI B and unrelated PKI C: %d (quote,pool) cases + root-of-trust configurations; e.g. role:tcb-signer+sgxext-as-leaf (QE report signed by the TCB-signing key) rejected", w.Describe(), len(cases))
